@@ -12,9 +12,18 @@ def main():
     lib = case['lib']
     lib['headers'] = [tuple(x) for x in lib['headers']]
     lib['sources'] = [tuple(x) for x in lib.get('sources') or []]
+    from giscanner import cachestore
+    loads = []
+    orig_load = cachestore.CacheStore.load
+
+    def load(self, filename):
+        d = orig_load(self, filename)
+        loads.append(d is not None)
+        return d
+    cachestore.CacheStore.load = load
     r = scan.scan(lib)
     json.dump({'gir': r['gir'], 'fatal': r['fatal'], 'exception': r['exception'], 'tb': r.get('traceback'),
-               'hashseed': os.environ.get('PYTHONHASHSEED'), 'cache_entries': (sorted(os.listdir(os.path.join(case['cache_home'], 'g-ir-scanner')))
+               'hashseed': os.environ.get('PYTHONHASHSEED'), 'cache_hits': sum(loads), 'cache_misses': len(loads) - sum(loads), 'cache_entries': (sorted(os.listdir(os.path.join(case['cache_home'], 'g-ir-scanner')))
                                                                              if case.get('cache_home') and os.path.isdir(os.path.join(case['cache_home'], 'g-ir-scanner')) else None)},
               sys.stdout)
 
